@@ -223,6 +223,12 @@ func init() {
 							if !bytes.Equal(tt.GetMessage(), v.Transaction.GetMessage()) || tt.Hash != v.Transaction.Hash {
 								c.Violate("C19", "wire-changes-transaction", what, info)
 							}
+							// "treated identically by every node": what kind of transaction it is (contract, transfer,
+							// empty) is the same on both sides of the wire
+							if tt.IsContract() != v.Transaction.IsContract() || tt.IsEmpty() != v.Transaction.IsEmpty() || tt.IsSpiceTransfer() != v.Transaction.IsSpiceTransfer() {
+								c.Violate("C19", "wire-changes-classification", fmt.Sprintf("%s: contract/empty/transfer is %v/%v/%v at the origin and %v/%v/%v behind the wire (data %d bytes, nil: %v)", what,
+									v.Transaction.IsContract(), v.Transaction.IsEmpty(), v.Transaction.IsSpiceTransfer(), tt.IsContract(), tt.IsEmpty(), tt.IsSpiceTransfer(), len(v.Transaction.Data), v.Transaction.Data == nil), info)
+							}
 						} else if v.Transaction.CreatedAt.UnixNano() == 0 {
 							// the wire form uses 0 for "no time stamp": a transaction created at the epoch instant is
 							// refused by every node alike (no value is produced, nothing diverges) - counted, not judged
@@ -237,6 +243,18 @@ func init() {
 		}
 		// valid signed vertex first
 		check(base(), "base")
+		{
+			v := base()
+			v.Transaction.Data = []byte{}
+			check(v, "data empty-not-nil")
+			v = base()
+			v.Transaction.Data = []byte{}
+			v.Transaction.Spice = spice.Melange{}
+			check(v, "data empty-not-nil, no spice")
+			v = base()
+			v.Transaction.Data = nil
+			check(v, "data nil")
+		}
 		// one field at a time
 		for _, ln := range append(append([]int{}, lenSet...), bigLens...) {
 			for _, utf := range []bool{true, false} {
